@@ -23,7 +23,7 @@ LEVEL_NOTE = 'trusted: CPython ast.walk / positions / tokenize; operator and com
 RULE = ('enum: case = (program, start node, parameter combination); non-trivial = distinct (program, start, combo) whose walk '
         'has >1 node; states = distinct (program, node) pairs visited; traces = walks compared with the reference order')
 ASSUMPTIONS = ['read-only; the AST objects of the tree are plain ast nodes (C05 judges that they equal ast.parse)']
-BOUNDS = {'quick': '580 programs (86 hand-written, every arrangement of <= 4 call / class arguments, every parameter-list shape as def and lambda); start nodes: root + every node; all 120 parameter combinations at every start node',
+BOUNDS = {'quick': '589 programs (95 hand-written, every arrangement of <= 4 call / class arguments, every parameter-list shape as def and lambda); start nodes: root + every node; all 120 parameter combinations at every start node',
           'thorough': 'all 120 combinations at every node + fixed corpus sweep of /repo/src/fst/*.py at the root'}
 
 TRICKY = [
@@ -94,9 +94,19 @@ def _param_shapes():
 
 ARGS4 = _arg_arrangements(4)
 PARAMS = _param_shapes()
+BLOCKS = [  # every statement-list field with two or three statements (sibling stepping inside each kind of block)
+    "match s:\n case 1:\n  a\n  b\n  c\n case [x] if g:\n  d\n  e",
+    "try:\n a\n b\nexcept E:\n c\n d\nexcept F as f:\n e\nelse:\n g\n h\nfinally:\n i\n j",
+    "try:\n a\nexcept* E:\n c\n d",
+    "for i in j:\n a\n b\nelse:\n c\n d\nwhile x:\n e\n f\nelse:\n g\n h",
+    "with a:\n b\n c\nclass C:\n d\n e\ndef f():\n g\n h",
+    "async def f():\n async for i in j:\n  a\n  b\n else:\n  c\n  d\n async with k:\n  e\n  g",
+    "if a:\n b\n c\nelif d:\n e\n f\nelse:\n g\n h",
+    "@dataclass\nclass Pair[K, V: int, *W](B, m=M): pass\n@d1\n@d2(x)\ndef g[T, *U, **V](a): pass\ntype A[T, U] = dict[T, U]",
+]
 PROGS = BASE + EXTRA + TRICKY
 N_HAND = len(PROGS)
-PROGS = PROGS + ARGS4 + PARAMS
+PROGS = PROGS + ARGS4 + PARAMS + BLOCKS
 for _p in PROGS[:N_HAND]:
     ast.parse(_p)
 
